@@ -27,6 +27,49 @@ def in_main_guard(module, node):
     return False
 
 
+def name_read_in_functions(ctx, m, ident):
+    """Is the module-level name read by any function of the package (in its own module, or
+    imported elsewhere)?"""
+    for mod in ctx.repo.modules.values():
+        if mod is not m:
+            imp = [k for k, v in mod.imports.items() if v[0] == "from" and v[3] == ident and v[2].split(".")[-1] == m.name]
+            if imp:
+                return True
+            for n in ast.walk(mod.tree):
+                if isinstance(n, ast.ImportFrom) and (n.module or "").split(".")[-1] == m.name and any(al.name in (ident, "*") for al in n.names):
+                    return True
+                if isinstance(n, ast.Attribute) and n.attr == ident and isinstance(n.value, ast.Name) and mod.imports.get(n.value.id, ("", "", "", ""))[-1] == m.name:
+                    return True
+            continue
+        for f in mod.all_functions():
+            for n in ast.walk(f.node):
+                if isinstance(n, ast.Name) and n.id == ident and isinstance(n.ctx, ast.Load):
+                    return True
+    return False
+
+
+def check_toplevel_lazy(ctx, led, m, st, owner, rule):
+    """A one-shot iterator object (map/filter/zip result on Python 3, generator, iter, reversed,
+    enumerate) that becomes part of module-level / class-level state is consumed by its first
+    reader: later readers in the same process see it empty."""
+    from .pycompat import stored_lazy
+
+    for node, kind, how in stored_lazy(m, st.value if isinstance(st, (ast.Assign, ast.AnnAssign, ast.AugAssign, ast.Expr)) and st.value is not None else st):
+        if how != "stored":
+            continue
+        if isinstance(st, ast.Assign) and st.value is node and len(st.targets) == 1 and isinstance(st.targets[0], ast.Name):
+            if not name_read_in_functions(ctx, m, st.targets[0].id):
+                continue  # a temporary of the module initialisation, consumed while importing
+        led.violation(
+            rule + ".lazy",
+            "%s::%s" % (owner, short(st, 70)),
+            m.where(node),
+            "the %s object %s is kept in shared %s state: whoever reads it first exhausts it, so results depend on what ran "
+            "earlier in the process (on Python 2.7 map/filter/zip return lists, on Python 3 one-shot iterators)"
+            % (kind, short(node, 50), "module-level" if "." not in owner else "class-level"),
+        )
+
+
 def check_toplevel(ctx, led, rule="C19.toplevel"):
     """Module top level: imports, constant bindings, defs, classes, __main__ guard only."""
     n = 0
@@ -35,6 +78,8 @@ def check_toplevel(ctx, led, rule="C19.toplevel"):
             n += 1
             ck = "%s::%s" % (name, short(st, 70))
             where = m.where(st)
+            if not isinstance(st, (ast.Import, ast.ImportFrom, ast.FunctionDef, ast.ClassDef)) and not is_main_guard(st):
+                check_toplevel_lazy(ctx, led, m, st, name, rule)
             if isinstance(st, (ast.Import, ast.ImportFrom, ast.FunctionDef, ast.ClassDef)):
                 continue
             if isinstance(st, ast.Expr) and isinstance(st.value, ast.Constant):
@@ -89,6 +134,7 @@ def check_toplevel(ctx, led, rule="C19.toplevel"):
                 if isinstance(st, ast.Expr) and isinstance(st.value, ast.Constant):
                     continue
                 ck = "%s.%s::%s" % (name, c.name, short(st, 70))
+                check_toplevel_lazy(ctx, led, m, st, "%s.%s" % (name, c.name), rule)
                 if isinstance(st, (ast.Assign, ast.AnnAssign)):
                     val = st.value
                     if isinstance(val, (ast.Dict, ast.List, ast.Set, ast.Call, ast.ListComp, ast.DictComp, ast.SetComp)):
